@@ -213,6 +213,10 @@ def streams_for(prop, seed, tier, boost=1):
         ops += ['hrt %02x' % b for b in range(256)] + ['hrt ' + genmod.hx(bytes(g.rnd.randrange(256) for _ in range(g.rnd.randint(1, 40)))) for _ in range(100 * k)]
         add('henc', ops)
         add('henc-extra', genmod.huff_extra_stream(G('hx')))
+        add('huff-alignment', genmod.huff_alignment_catalogue())
+        add('hrt-large', ['hrt ' + genmod.hx(bytes(0x80 + (j * 7) % 128 for j in range(14000))),
+                          'hrt ' + genmod.hx(bytes(g.rnd.randrange(256) for _ in range(29000))),
+                          'hrt ' + genmod.hx(b'plain ascii text ' * 3300)])
         add('henc-debuglog', genmod.with_debug_log(['henc %02x' % b for b in range(256)] + ['hrt ' + genmod.hx(bytes(range(256)))] +
                                                    ['henc ' + genmod.hx(bytes(g.rnd.randrange(256) for _ in range(20))) for _ in range(40)]))
         mixed = []
@@ -223,6 +227,7 @@ def streams_for(prop, seed, tier, boost=1):
     elif prop == 'C13':
         add('hdec', G('hdec').hdec_stream(n_random=400 * k))
         add('hdec-transitions', genmod.huff_transition_catalogue())
+        add('huff-alignment', genmod.huff_alignment_catalogue())
         add('hdec-shared-buffer', genmod.hdec_shared_stream(G('hs'), n=80 * k))
         rep = G('hdec2').hdec_stream(n_random=150 * k)
         add('hdec-repeated-in-one-process', rep + rep[::-1] + rep)
